@@ -7,7 +7,7 @@ from penman.tree import Tree
 
 from pv.gen import models, trees
 from pv.harness import Enum, Hyp
-from pv.props.common import fmt, short, tree_classes, tree_stats
+from pv.props.common import churn_models, fmt, noise_calls, short, tree_classes, tree_stats
 from pv.ref import interp
 from pv.ref.role import build_model
 
@@ -31,7 +31,11 @@ def _aln(a):
 def check(case):
     spec = case['model']
     node = interp.to_node(case['tree'])
-    m = build_model(spec)
+    fresh = bool(len(case['tree'][1]) % 2)
+    if fresh:
+        churn_models(node)
+    m = build_model(spec, fresh=fresh)
+    noise_calls(m, node)
     f = []
     g = layout.interpret(Tree(node), m)
     rd = interp.interpret(node, spec)
